@@ -8,6 +8,7 @@ CONSTANTS
   OffCols <- MCOffCols
   OffRows <- MCOffRows
   Spans <- MCSpans
+  RelOffs <- MCRelOffs
   Alphabet <- MCAlphabet
   MaxName <- MCMaxName
   SpecialNames <- MCSpecialNames
@@ -21,6 +22,8 @@ INVARIANT TypeOK
 INVARIANT ColInverse
 INVARIANT CoordRoundTrip
 INVARIANT OffsetWrap
+INVARIANT BandRoundTrip
+INVARIANT RelSpans
 INVARIANT SheetRoundTrip
 INVARIANT CellsCount
 INVARIANT PairLaws
